@@ -1,9 +1,17 @@
+pub mod explore;
 pub mod honest;
 
 use crate::framework::Check;
 
 pub fn all() -> Vec<Box<dyn Check>> {
-    vec![Box::new(honest::C01), Box::new(honest::C12)]
+    vec![
+        Box::new(honest::C01),
+        Box::new(explore::C05),
+        Box::new(explore::C09),
+        Box::new(honest::C12),
+        Box::new(explore::C18),
+        Box::new(explore::C19),
+    ]
 }
 
 pub fn by_id(id: &str) -> Option<Box<dyn Check>> {
